@@ -302,7 +302,7 @@ def generate_and_run(seed, cfg):
         elif r < 0.75 + knobs["state_rate"] * 0.25:
             op = W.gen_state_op(rng)
         elif r < 0.93:
-            op = W.gen_derivation(rng, at, live)
+            op = W.gen_derivation(rng, at, live, ex.slots)
         else:
             op = W.gen_read(rng, live, ex.slots)
         ex.step(op)
